@@ -15,13 +15,22 @@ def one(name):
     meta = json.load(open(os.path.join(d, "meta.json")))
     if str(meta.get("status", "")).startswith("obsolete"):
         return name, {"property": meta["property"], "verdict": "OBSOLETE", "detail": meta["status"], "summary": meta.get("summary", "")}
+    cb = str(meta.get("caught_by", ""))
+    if cb == "none":
+        return name, {"property": meta["property"], "verdict": "NOT-COVERED", "detail": meta.get("note", ""), "summary": meta.get("summary", ""),
+                      "needs": meta.get("needs", "")}
+    env = dict(os.environ)
+    if re.fullmatch(r"C\d\d", cb) and cb != meta["property"]:
+        env["SEEDTEST_PROP"] = cb           # the changed code is another property's subject: that property's check is run
     try:
-        r = subprocess.run(["/venv/bin/python", "-m", "harness.seedtest", d], cwd=V, capture_output=True, text=True, timeout=4000)
+        r = subprocess.run(["/venv/bin/python", "-m", "harness.seedtest", d], cwd=V, capture_output=True, text=True, timeout=4000, env=env)
         out = r.stdout.strip().splitlines()
     except subprocess.TimeoutExpired:
         out = ["TIMEOUT"]
     first = out[0] if out else "?"
     verdict = first.split(" ")[0]
+    if "SEEDTEST_PROP" in env and verdict == "CAUGHT":
+        verdict = "CAUGHT-BY-" + cb
     return name, {"property": meta["property"], "verdict": verdict, "detail": first, "replay": (out[1].strip() if len(out) > 1 else ""),
                   "summary": meta.get("summary", ""), "needs": meta.get("needs", "")}
 
